@@ -70,7 +70,8 @@ def feature_case(fname, N, T, ul_kind="brownian"):
             f.get(i)
             for (ins, nm, b), s in zip(bufs, snaps):
                 unchanged(c, "%s.get(%s) leaves %s" % (fname, i, nm), b, s)
-                c.check("%s.get(%s) keeps buffer object %s" % (fname, i, nm), ins.get_buffer(nm) is b)
+                if ins.get_buffer(nm) is not b:  # (a replaced buffer object must hold the same series)
+                    unchanged(c, "%s.get(%s): the instrument's current %s" % (fname, i, nm), ins.get_buffer(nm), s)
         c.control("control:snapshot-sees-writes", _control_write(c, ul))
 
     return fn
@@ -110,7 +111,8 @@ def computation_case(N, T, deriv_kind, stepwise, ul_kind="brownian"):
         def chk(tag):
             for (ins, nm, b), s in zip(bufs, snaps):
                 unchanged(c, "%s leaves %s" % (tag, nm), b, s)
-                c.check("%s keeps buffer object %s" % (tag, nm), ins.get_buffer(nm) is b)
+                if ins.get_buffer(nm) is not b:
+                    unchanged(c, "%s: the instrument's current %s" % (tag, nm), ins.get_buffer(nm), s)
 
         deriv.payoff()
         chk("payoff")
